@@ -35,3 +35,18 @@ claim("C17", "explicit-state exploration of add/delete histories on every public
 claim("C19", "bounded-exhaustive enumeration; parse-time map interrogated inside on_parse, emit-time map through a spy custom section",
       "every member of fixtures/struct/funcs/locals/names x {no pass, gc}: every index of every space (and one past the end) looked up in IndicesToIds and compared with the independent model of the input; IdsToIndices queried for every live id during serialisation and compared with the entity's real position in the output",
       "trusted: wmodel decoder and iso maps (forced by anchors) to identify entities in the output", "5/C19")
+claim("C01", "product-state exploration of input vs re-emitted instances in V8 over bounded-exhaustive program families",
+      "every valid body over a 40-token alphabet up to length L (batched), funcs/locals/struct/reach families, fixtures and twelve stateful modules: input and walrus output are instantiated against identical deterministic hosts and driven through all exports x all argument vectors (batches) or a breadth-first search over call sequences with re-instantiation and replay (stateful modules); results, trap class, host-call trace and exported/imported state digest must agree after every transition",
+      "V8 in node 20 is the execution oracle (no multi-memory, no 64-bit tables: such members are exec_skipped and covered structurally by C03/C04); NaN payloads of results unobservable from JS; non-terminating fixture functions time out as machinery notes", "5/C01")
+claim("C06", "bounded-exhaustive reference-graph enumeration (reach family) + isomorphism (mode gc) + V8 product exploration",
+      "every subset of <=2 (quick) / <=3 (thorough) of 40 reference edges over a fixed entity population, plus struct/funcs/fixtures/stateful modules, through parse; gc; emit: no panic, valid, same exports, kept part isomorphic, and behaviourally equal to the input in V8 for inputs that instantiate",
+      "trusted: wmodel iso, V8; the one tolerated difference of the property is absorbed by comparing only inputs whose instantiation succeeds", "5/C06")
+claim("C07", "independent reachability analysis on the emitted binary over the reach family + explicit-state search over {gc, emit, reparse} histories",
+      "precision: after gc nothing unreachable from the property's roots may remain in the emitted binary (analysis written from the property text, run on the output bytes); idempotence: in every state of every history up to depth 3/4 whose history contains gc, one more gc must not change the emitted bytes",
+      "trusted: wmodel decoder and reach analysis; tolerated residue: one memory when only data segments need it", "5/C07")
+claim("C09", "stateless DFS over fork-join schedules of the real parallel build on a controlled rayon-core (all linear extensions of the task DAG)",
+      "walrus --features parallel is compiled unchanged against a replacement rayon-core whose join hands every fork to a baton scheduler; every schedule of every fan-out (full product) for inputs with <=3 (quick) / <=4 (thorough) functions x 5 thread counts x migrated flag, deviation-bounded (<=2) plus per-fan-out complete for larger inputs; each must equal the serial build byte for byte and in accept/reject",
+      "task granularity (audit of shared mutable state printed in the evidence); rayon internals are not the subject", "5/C09")
+claim("C18", "complete enumeration of module variants x targets x replacement bodies; independent expected module; iso + V8 product exploration",
+      "16 module variants x every imported/exported function x 5 replacement bodies performed with the real replace_* APIs; the result must validate, be isomorphic to an independently written expected module and behave identically in V8 (BFS over call sequences)",
+      "expected modules are WAT text assembled by wat 1.259; for a function exported twice either single retargeted export is accepted", "5/C18")
